@@ -193,6 +193,8 @@ class Interp:
         self.pseudo: set = set()  # identities of elements selected by index / pop (always current)
         self.collectors: list = []  # (uncertainty level, fields definitely written) per open branch of an undecided `if`
         self.scalar_calls: list = []  # (method name, provenance tags of the scalar receiver)
+        self.in_while = 0  # > 0 while the body of a `while` loop is interpreted (picks there are how the loop iterates)
+        self._accumulating = False
 
     # ------------------------------------------------------------------ heap
     def cell(self, ref: Ref):
@@ -289,10 +291,40 @@ class Interp:
                     c.shared = where
                     self.version += 1
 
-    def store_entry(self, ref: Ref, k: frozenset, v: frozenset, explicit: str = "") -> None:
+    def overwritten(self, k: frozenset, v: frozenset, where: str, key, same_element: bool = False) -> frozenset:
+        """`d[k] = v` / `{k: v for ...}` executed once per pair of a bucket, where k is made of one side of the pair only and v
+        directly carries the other side of the same pair: pairs that agree in k overwrite each other, all but one are lost.
+        (Values that are collections are not meant: `d[k] = [v]` is the first step of an accumulation.)"""
+        found = [sc for sc in self.scalars(k, into_colls=False) if "search" in sc.srcs]
+        if found:
+            # index of graph nodes: the key is a node found by a search for the current module X, the value is X itself - a node
+            # that lies in the sub trees of several requested modules (a package and one of its sub modules) keeps the last one only
+            live = frozenset().union(*[self.live(sc.eids - sc.gone) for sc in found]) & frozenset(self.loop_eids)
+            owners = [sc for sc in self.scalars(v, into_colls=False) if sc.srcs and "search" not in sc.srcs and (sc.eids - sc.gone) & live]
+            if live and owners:
+                why = "a node found for several of the given modules is stored under one key and keeps only the module stored last (the given modules may contain one another)"
+                return self.with_marks(v, [("part", where, why, False)], ("own", key))
+            return v
+        ks = [sc for sc in self.scalars(k, into_colls=False) if sc.roles and sc.srcs]
+        if not ks:
+            return v
+        kroles = frozenset().union(*[sc.roles for sc in ks])
+        live = frozenset().union(*[self.live(sc.eids - sc.gone) for sc in ks]) & frozenset(self.loop_eids)
+        if not (live or same_element) or kroles >= {"S", "O"}:
+            return v
+        lost = [sc for sc in self.scalars(v, into_colls=False) if sc.roles and sc.srcs and not sc.roles <= kroles and (same_element or (sc.eids - sc.gone) & live) and not sc.agg]
+        if not lost:
+            return v
+        names = {"S": "rule subject", "O": "rule object"}
+        why = f"entries are stored under a key made of the {' and '.join(names[r] for r in sorted(kroles))} only: pairs that agree in it overwrite each other"
+        return self.with_marks(v, [("part", where, why, False)], ("ow", key))
+
+    def store_entry(self, ref: Ref, k: frozenset, v: frozenset, explicit: str = "", accumulating: bool = False) -> None:
         if explicit:
             self.note_shared(k, v, explicit)
             v = self.runs_to_parts(v, (ref.key, explicit))
+            if not accumulating:
+                v = self.overwritten(k, v, explicit, ref.key)
         c = self.cells[ref.key]
         k, v = self.escape(c, k), self.escape(c, v)
         if (k, v) not in c.entries:
@@ -318,11 +350,18 @@ class Interp:
         act = set(self.active) | self.pseudo
         return frozenset(e for e in eids if e in act)
 
-    def pick(self, v: frozenset, key, label: str) -> frozenset:
-        """One element selected from a collection by index / pop / next: its parts stem from the same element."""
+    def pick(self, v: frozenset, key, label: str, only: str = "") -> frozenset:
+        """One element selected from a collection by index / pop / next: its parts stem from the same element.
+        `only`: the selection is a fixed one (`xs[0]`, `next(it)` outside a `while` loop) - the rule objects of the other elements
+        are not looked at through this expression (the rule subject of a group may well be read off its first pair)."""
         e = self.eid(("pick", key), label)
         self.pseudo.add(e)
-        return self.retag(v, e, ("pick", key))
+        out = self.retag(v, e, ("pick", key))
+        if only and not self.in_while:
+            grouped = any(self.live(sc.assoc - sc.gone) for sc in self.scalars(out))
+            mark = ("part", label, only, grouped)
+            out = self.map_scalars(out, lambda sc: replace(sc, marks=sc.marks | {mark}) if sc.roles == {"O"} and sc.srcs and not sc.agg else sc, ("pickmark", key))
+        return out
 
     def scalars(self, v: frozenset, depth: int = 0, into_colls: bool = True) -> list[Sc]:
         """All scalar shapes inside a value (tuple items, object fields, elements of collections)."""
@@ -670,7 +709,7 @@ class Interp:
                 return True
             if e.id in mod.constants:
                 return e.id not in seen and self.static_expr(mod, mod.constants[e.id], seen | {e.id}, depth + 1)
-            return e.id in ("True", "False", "None", "str", "list", "set", "dict", "int", "tuple", "frozenset", "reversed", "sorted", "len", "iter")
+            return e.id in ("True", "False", "None", "str", "list", "set", "dict", "int", "tuple", "frozenset", "reversed", "sorted", "len", "iter", "staticmethod")
         if isinstance(e, ast.Attribute):
             # operator.itemgetter, itertools.chain.from_iterable, SomeClass.method
             b = e.value
@@ -769,7 +808,14 @@ class Interp:
         if isinstance(s, ast.Assign):
             v = self.ev(s.value, env, fr)
             for t in s.targets:
-                self.assign(t, v, env, fr)
+                if isinstance(t, ast.Subscript):
+                    # `d[k] = d.get(k, ()) + (x,)`: the new value is computed from the old one
+                    base = norm(t.value)
+                    self._accumulating = any(isinstance(n, (ast.Name, ast.Attribute)) and norm(n) == base for n in ast.walk(s.value))
+                try:
+                    self.assign(t, v, env, fr)
+                finally:
+                    self._accumulating = False
             return env
         if isinstance(s, ast.AnnAssign):
             if s.value is not None:
@@ -966,9 +1012,11 @@ class Interp:
                 break
             fr.loops.append({"break": None, "cont": None})
             self.uncertain += 1
+            self.in_while += 1
             try:
                 out = self.exec_block(s.body, dict(head), fr)
             finally:
+                self.in_while -= 1
                 self.uncertain -= 1
                 lp = fr.loops.pop()
             out = self.join_env(out, lp["cont"])
@@ -1028,7 +1076,7 @@ class Interp:
             key = self.ev(t.slice, env, fr) if not isinstance(t.slice, ast.Slice) else E
             for sh in base:
                 if isinstance(sh, Ref) and sh.kind == "dict":
-                    self.store_entry(sh, key, self.bake(key, v, fr, t), explicit=self.site(fr, t))
+                    self.store_entry(sh, key, self.bake(key, v, fr, t), explicit=self.site(fr, t), accumulating=getattr(self, "_accumulating", False))
                 elif isinstance(sh, Ref) and sh.kind == "coll":
                     self.add(sh, v if not isinstance(t.slice, ast.Slice) else self.elems(v))
             return
@@ -1517,7 +1565,8 @@ class Interp:
             if isinstance(sh, Ref) and sh.kind == "dict":
                 out |= self.dict_lookup(sh, key, e, fr)
             elif isinstance(sh, Ref) and sh.kind == "coll":
-                out |= self.pick(self.elems(V(sh)), (sh.key, norm(e.slice, 40), fr.inv), self.site(fr, e))
+                fixed = len(key) == 1 and isinstance(next(iter(key)), Const) and isinstance(next(iter(key)).value, int)
+                out |= self.pick(self.elems(V(sh)), (sh.key, norm(e.slice, 40), fr.inv), self.site(fr, e), f"only the element `{norm(e, 60)}` is used" if fixed else "")
             elif isinstance(sh, Tup):
                 idx = next(iter(key)).value if len(key) == 1 and isinstance(next(iter(key)), Const) else None
                 if isinstance(idx, int) and -len(sh.items) <= idx < len(sh.items):
@@ -2079,12 +2128,6 @@ class Interp:
         if name.startswith("operator.") and short.strip("_") in ("or", "ior", "add", "iadd", "concat", "iconcat", "and", "iand", "sub", "isub", "xor", "ixor") and len(args) == 2:
             op = {"or": ast.BitOr, "ior": ast.BitOr, "add": ast.Add, "iadd": ast.Add, "concat": ast.Add, "iconcat": ast.Add, "and": ast.BitAnd, "iand": ast.BitAnd, "sub": ast.Sub, "isub": ast.Sub, "xor": ast.BitXor, "ixor": ast.BitXor}[short.strip("_")]()
             return self.binop(args[0], args[1], op, call, fr)
-        if args and len(name.split(".")) == 2 and name.split(".")[0] in ("set", "frozenset", "list", "dict", "str", "tuple"):
-            # unbound method of a builtin type: set.union(a, b), str.join(sep, xs), list.append(xs, x)
-            out = set()
-            for sh in args[0]:
-                out |= self.method(sh, short, args[1:], kwargs, call, env, fr)
-            return frozenset(out)
         if name in ("itertools.groupby", "groupby") and args:
             r = self.coll(key, site)
             keyfn = args[1] if len(args) > 1 else kwargs.get("key")
@@ -2137,7 +2180,7 @@ class Interp:
                         for t in self.elems(V(o)):
                             if isinstance(t, Tup) and len(t.items) == 2:
                                 # key and value were combined when the pair was built (and checked there)
-                                self.store_entry(r, t.items[0], t.items[1], explicit=site)
+                                self.store_entry(r, t.items[0], self.overwritten(t.items[0], t.items[1], site, (key, "pairs"), same_element=True), explicit=site)
                             elif isinstance(t, Top):
                                 return V(t)
             for k, v in kwargs.items():
@@ -2145,7 +2188,7 @@ class Interp:
             return V(r)
         if name in ("len", "sum", "any", "all", "min", "max", "next") or name in SCALAR_FUNCS:
             if name in ("min", "max", "next"):
-                return self.pick(self.elems(args[0]), (id(call), fr.inv), site) if args else E
+                return self.pick(self.elems(args[0]), (id(call), fr.inv), site, f"only the first element is used: `{norm(call, 60)}`" if name == "next" else "") if args else E
             if name in ("len", "sum", "any", "all"):
                 return self.derive([self.elems(a) for a in args], fr, call, check=False, agg=name == "len")
             if name in ("str", "repr", "format"):
@@ -2192,8 +2235,15 @@ class Interp:
                 self.add(r, self.unvet(self.elems(self.elems(a))))
             return V(r)
         if name in ("itertools.product", "product"):
+            # every element of one argument is paired with every element of the others: subject content and object content
+            # that are combined here stem from different pairs (unless they never were parts of pairs)
             r = self.coll(key, site)
-            self.add(r, V(Tup(tuple(self.elems(a) for a in args), site)))
+            items = [self.elems(a) for a in args]
+            el = V(Tup(tuple(items), site))
+            m = self.link_mark([self.scalars(it) for it in items], fr, call)
+            if m is not None:
+                el = self.with_marks(el, [m], (key, "mix"))
+            self.add(r, el)
             return V(r)
         if name in ("typing.cast", "cast") and len(args) == 2:
             return args[1]
@@ -2240,6 +2290,12 @@ class Interp:
             return V(Opaque(name))
         if short and short[0].isupper() and short.endswith(("Error", "Exception", "Warning", "Mismatch", "Configured")):
             return V(Opaque("exception"))
+        if args and len(name.split(".")) == 2 and name.split(".")[0] in ("set", "frozenset", "list", "dict", "str", "tuple"):
+            # unbound method of a builtin type: set.union(a, b), str.join(sep, xs), list.append(xs, x)
+            out = set()
+            for sh in args[0]:
+                out |= self.method(sh, short, args[1:], kwargs, call, env, fr)
+            return frozenset(out)
         if any(isinstance(x, Ref) and x.kind in ("coll", "dict") for a in [*args, *kwargs.values()] for x in a):
             return self.top(f"library function `{name}` applied to a collection is not modelled")
         return self.derive([*args, *kwargs.values()], fr, call, check=False, none=False)
